@@ -541,11 +541,11 @@ func genScalar(p *pkgInfo) string {
 	sb.WriteString(rjust.gen(p))
 	getdigit := &skeleton{
 		name:    "go_get_digit",
-		comment: "filters_builtin.go filterGetdigit: (returns the input unchanged?, position, byte length) from the requested digit and the byte length of the input's text",
+		comment: "filters_builtin.go filterGetdigit: (no such position?, no digit there?, position, byte length, byte at the position) from the requested digit, the byte length of the input's text and the byte found",
 		block:   fbody("filterGetdigit"),
-		params:  [][2]string{{"v_i0", "Z"}, {"v_l0", "Z"}},
-		opaque:  map[string]string{"param.Integer()": "v_i0", "len(in.String())": "v_l0"},
-		tracked: []skelVar{{"i", "Z"}, {"l", "Z"}},
+		params:  [][2]string{{"v_i0", "Z"}, {"v_l0", "Z"}, {"v_c0", "Z"}},
+		opaque:  map[string]string{"param.Integer()": "v_i0", "len(in.String())": "v_l0", "in.String()[l-i]": "v_c0"},
+		tracked: []skelVar{{"i", "Z"}, {"l", "Z"}, {"c", "Z"}},
 		stop:    "return AsValue(",
 		guards:  true,
 	}
